@@ -45,7 +45,28 @@ ValidUtf8(b) == \A p \in {Utf8Points(b, 1)[k] : k \in 1..Len(Utf8Points(b, 1))} 
 
 \* characters that may never appear raw in printed text
 RawForbidden(p) == p < 32 \/ (p >= 127 /\ p < 160) \/ p = 8232 \/ p = 8233
-TextClean(t) == LET ps == Utf8Points(t, 1) IN \A k \in 1..Len(ps) : ps[k] >= 0 /\ ~RawForbidden(ps[k])
+\* reference definition (quadratic: builds the code point sequence)
+TextCleanRef(t) == LET ps == Utf8Points(t, 1) IN \A k \in 1..Len(ps) : ps[k] >= 0 /\ ~RawForbidden(ps[k])
+
+\* the same, position by position (linear; C15MC checks the two definitions agree):
+\* every byte is an allowed ASCII character, a lead byte of a well-formed sequence that does not
+\* encode a forbidden character, or a continuation byte covered by such a lead byte
+ContAt(t, k) == k >= 1 /\ k <= Len(t) /\ t[k] >= 128 /\ t[k] < 192
+LeadLen(c) == IF c >= 194 /\ c < 224 THEN 2 ELSE IF c >= 224 /\ c < 240 THEN 3 ELSE IF c >= 240 /\ c < 245 THEN 4 ELSE 0
+LeadOK(t, k) ==
+  LET c == t[k]
+      n == LeadLen(c)
+  IN /\ n > 0 /\ \A j \in 1..(n - 1) : ContAt(t, k + j)
+     /\ (c = 224 => t[k + 1] >= 160) /\ (c = 237 => t[k + 1] < 160)
+     /\ (c = 240 => t[k + 1] >= 144) /\ (c = 244 => t[k + 1] < 144)
+     /\ ~(c = 194 /\ t[k + 1] < 160)                               \* U+0080..U+009F
+     /\ ~(c = 226 /\ t[k + 1] = 128 /\ t[k + 2] \in {168, 169})     \* U+2028 U+2029
+ContOK(t, k) == \E j \in 1..3 : /\ k - j >= 1 /\ LeadLen(t[k - j]) > j
+                                /\ \A d \in 1..(j - 1) : ContAt(t, k - d)
+                                /\ LeadOK(t, k - j)
+ByteClean(t, k) == LET c == t[k] IN
+  IF c < 128 THEN c >= 32 /\ c # 127 ELSE IF c < 192 THEN ContOK(t, k) ELSE LeadOK(t, k)
+TextClean(t) == \A k \in 1..Len(t) : ByteClean(t, k)
 
 StrReprOK(t, s, isBytes) ==
   LET lit == U!StrLit(t) IN lit.ok /\ lit.bytes = isBytes /\ lit.v = s
